@@ -1,4 +1,5 @@
 import HexProofs.Numeric.AvgExtra
+import HexProofs.Numeric.SeriesOnManagersC04
 import HexProofs.Numeric.SeriesInputsHMA
 import HexProofs.Numeric.SeriesInputsAvg
 import HexProofs.Numeric.Composite
@@ -653,5 +654,231 @@ theorem C04_HMA_inputs_rows {K : Type} [Field K] [LinearOrder K] [IsStrictOrdere
       ∀ j, j < cs.length →
         out.getD j default = hmaOut nm n (cs.getD j default) (hmaI_row p t0 (fun k => (r k).toF) j) :=
   Numeric.hmaI_rows p hp nm input n t0 cs r hn hi habs hnone hnum
+
+/-- **SMA is its textbook series on every manager** -/
+theorem sma_series_on_manager (M : MgrSpec K) (p : Nat) (hp : 2 ≤ p) (nm input : String)
+    (fld : Candle K → Num K) (n : Nat) (hk : IsKey nm) (hin : AttrInput input)
+    (hattr : ∀ c : Candle K, c.attr input = some (.num (fld c))) :
+    HoldsOn M (mkTop (.sma p input) nm n) (SmaCandle p n nm fld) :=
+  Numeric.sma_series_on_manager M p hp nm input fld n hk hin hattr
+
+/-- **SMA on a collapsing timeframe**: every history over a sorted stamped raw stream returns one candle per
+collapsed bucket, candle `j` being bucket `j` with the SMA of the COLLAPSED candles' inputs -/
+theorem sma_series_on_tf (tf : Int) (htf : 0 < tf) (p : Nat) (hp : 2 ≤ p) (nm input : String)
+    (fld : Candle K → Num K) (n : Nat) (hk : IsKey nm) (hin : AttrInput input)
+    (hattr : ∀ c : Candle K, c.attr input = some (.num (fld c)))
+    (init : List (Candle K)) (chunks : List (List (Candle K))) (hraw : RawTf (init ++ chunks.flatten)) :
+    ∃ snap, candlesOf (runIndicator (mkTop (.sma p input) nm n) { tf := some tf } init chunks) = .ok snap ∧
+      snap.length = (resample tf (init ++ chunks.flatten)).length ∧
+      ∀ j, j < (resample tf (init ++ chunks.flatten)).length →
+        (snap.getD j default).bare = ((resample tf (init ++ chunks.flatten)).getD j default).bare ∧
+        SmaOK p n (fieldAt fld (resample tf (init ++ chunks.flatten))) j (readingByCandle (snap.getD j default) nm) :=
+  Numeric.sma_series_tf tf htf p hp nm input fld n hk hin hattr init chunks hraw
+
+/-- **SMA on timeframe + gap filling + Heikin-Ashi** -/
+theorem sma_series_on_fillHA (tf : Int) (htf : 0 < tf) (p : Nat) (hp : 2 ≤ p) (nm input : String)
+    (fld : Candle K → Num K) (n : Nat) (hk : IsKey nm) (hin : AttrInput input)
+    (hattr : ∀ c : Candle K, c.attr input = some (.num (fld c)))
+    (init : List (Candle K)) (chunks : List (List (Candle K)))
+    (hraw : RawTf (init ++ chunks.flatten) ∧ ∀ c ∈ init ++ chunks.flatten, c.tag = false) :
+    ∃ snap, candlesOf (runIndicator (mkTop (.sma p input) nm n) { tf := some tf, fill := true, ha := true }
+        init chunks) = .ok snap ∧
+      snap.length = (haSpec (fillSpec tf (init ++ chunks.flatten))).length ∧
+      ∀ j, j < (haSpec (fillSpec tf (init ++ chunks.flatten))).length →
+        (snap.getD j default).bare = ((haSpec (fillSpec tf (init ++ chunks.flatten))).getD j default).bare ∧
+        SmaOK p n (fieldAt fld (haSpec (fillSpec tf (init ++ chunks.flatten)))) j
+          (readingByCandle (snap.getD j default) nm) :=
+  Numeric.sma_series_fillHA tf htf p hp nm input fld n hk hin hattr init chunks hraw
+
+/-- **EMA is its textbook series on every manager** -/
+theorem ema_series_on_manager (M : MgrSpec K) (p : Nat) (hp : 2 ≤ p) (s : Num K) (nm input : String)
+    (fld : Candle K → Num K) (n : Nat) (ha0 : 0 < s.toF / ((p : K) + 1)) (ha1 : s.toF / ((p : K) + 1) ≤ 1)
+    (hk : IsKey nm) (hin : AttrInput input) (hattr : ∀ c : Candle K, c.attr input = some (.num (fld c))) :
+    HoldsOn M (mkTop (.ema p input s) nm n) (EmaCandle p n s nm fld) :=
+  Numeric.ema_series_on_manager M p hp s nm input fld n ha0 ha1 hk hin hattr
+
+/-- **EMA on a collapsing timeframe** -/
+theorem ema_series_on_tf (tf : Int) (htf : 0 < tf) (p : Nat) (hp : 2 ≤ p) (s : Num K) (nm input : String)
+    (fld : Candle K → Num K) (n : Nat) (ha0 : 0 < s.toF / ((p : K) + 1)) (ha1 : s.toF / ((p : K) + 1) ≤ 1)
+    (hk : IsKey nm) (hin : AttrInput input) (hattr : ∀ c : Candle K, c.attr input = some (.num (fld c)))
+    (init : List (Candle K)) (chunks : List (List (Candle K))) (hraw : RawTf (init ++ chunks.flatten)) :
+    ∃ snap, candlesOf (runIndicator (mkTop (.ema p input s) nm n) { tf := some tf } init chunks) = .ok snap ∧
+      snap.length = (resample tf (init ++ chunks.flatten)).length ∧
+      ∀ j, j < (resample tf (init ++ chunks.flatten)).length →
+        (snap.getD j default).bare = ((resample tf (init ++ chunks.flatten)).getD j default).bare ∧
+        RecOK p n (s.toF / ((p : K) + 1))
+          (recExact (s.toF / ((p : K) + 1)) (winMean (fieldAt fld (resample tf (init ++ chunks.flatten))) p (p - 1))
+            (fieldAt fld (resample tf (init ++ chunks.flatten))) p) j (readingByCandle (snap.getD j default) nm) :=
+  Numeric.ema_series_tf tf htf p hp s nm input fld n ha0 ha1 hk hin hattr init chunks hraw
+
+/-- **EMA on timeframe + gap filling + Heikin-Ashi** -/
+theorem ema_series_on_fillHA (tf : Int) (htf : 0 < tf) (p : Nat) (hp : 2 ≤ p) (s : Num K) (nm input : String)
+    (fld : Candle K → Num K) (n : Nat) (ha0 : 0 < s.toF / ((p : K) + 1)) (ha1 : s.toF / ((p : K) + 1) ≤ 1)
+    (hk : IsKey nm) (hin : AttrInput input) (hattr : ∀ c : Candle K, c.attr input = some (.num (fld c)))
+    (init : List (Candle K)) (chunks : List (List (Candle K)))
+    (hraw : RawTf (init ++ chunks.flatten) ∧ ∀ c ∈ init ++ chunks.flatten, c.tag = false) :
+    ∃ snap, candlesOf (runIndicator (mkTop (.ema p input s) nm n) { tf := some tf, fill := true, ha := true }
+        init chunks) = .ok snap ∧
+      EveryCandle (EmaCandle p n s nm fld) (haSpec (fillSpec tf (init ++ chunks.flatten))) snap :=
+  Numeric.ema_series_fillHA tf htf p hp s nm input fld n ha0 ha1 hk hin hattr init chunks hraw
+
+/-- **RMA is its textbook series on every manager** -/
+theorem rma_series_on_manager (M : MgrSpec K) (p : Nat) (hp : 2 ≤ p) (nm input : String)
+    (fld : Candle K → Num K) (n : Nat) (hk : IsKey nm) (hin : AttrInput input)
+    (hattr : ∀ c : Candle K, c.attr input = some (.num (fld c))) :
+    HoldsOn M (mkTop (.rma p input) nm n) (RmaCandle p n nm fld) :=
+  Numeric.rma_series_on_manager M p hp nm input fld n hk hin hattr
+
+/-- **RMA on a collapsing timeframe** -/
+theorem rma_series_on_tf (tf : Int) (htf : 0 < tf) (p : Nat) (hp : 2 ≤ p) (nm input : String)
+    (fld : Candle K → Num K) (n : Nat) (hk : IsKey nm) (hin : AttrInput input)
+    (hattr : ∀ c : Candle K, c.attr input = some (.num (fld c)))
+    (init : List (Candle K)) (chunks : List (List (Candle K))) (hraw : RawTf (init ++ chunks.flatten)) :
+    ∃ snap, candlesOf (runIndicator (mkTop (.rma p input) nm n) { tf := some tf } init chunks) = .ok snap ∧
+      snap.length = (resample tf (init ++ chunks.flatten)).length ∧
+      ∀ j, j < (resample tf (init ++ chunks.flatten)).length →
+        (snap.getD j default).bare = ((resample tf (init ++ chunks.flatten)).getD j default).bare ∧
+        RecOK p n (1 / (p : K))
+          (recExact (1 / (p : K)) (decayMean (fieldAt fld (resample tf (init ++ chunks.flatten))) p (p - 1))
+            (fieldAt fld (resample tf (init ++ chunks.flatten))) p) j (readingByCandle (snap.getD j default) nm) :=
+  Numeric.rma_series_tf tf htf p hp nm input fld n hk hin hattr init chunks hraw
+
+/-- **RMA on timeframe + gap filling + Heikin-Ashi** -/
+theorem rma_series_on_fillHA (tf : Int) (htf : 0 < tf) (p : Nat) (hp : 2 ≤ p) (nm input : String)
+    (fld : Candle K → Num K) (n : Nat) (hk : IsKey nm) (hin : AttrInput input)
+    (hattr : ∀ c : Candle K, c.attr input = some (.num (fld c)))
+    (init : List (Candle K)) (chunks : List (List (Candle K)))
+    (hraw : RawTf (init ++ chunks.flatten) ∧ ∀ c ∈ init ++ chunks.flatten, c.tag = false) :
+    ∃ snap, candlesOf (runIndicator (mkTop (.rma p input) nm n) { tf := some tf, fill := true, ha := true }
+        init chunks) = .ok snap ∧
+      EveryCandle (RmaCandle p n nm fld) (haSpec (fillSpec tf (init ++ chunks.flatten))) snap :=
+  Numeric.rma_series_fillHA tf htf p hp nm input fld n hk hin hattr init chunks hraw
+
+/-- **WMA is its textbook series on every manager** -/
+theorem wma_series_on_manager (M : MgrSpec K) (p : Nat) (hp : 2 ≤ p) (nm input : String)
+    (fld : Candle K → Num K) (n : Nat) (hk : IsKey nm) (hin : AttrInput input)
+    (hattr : ∀ c : Candle K, c.attr input = some (.num (fld c))) :
+    HoldsOn M (mkTop (.wma p input) nm n) (WmaCandle p n nm fld) :=
+  Numeric.wma_series_on_manager M p hp nm input fld n hk hin hattr
+
+/-- **WMA on a collapsing timeframe** -/
+theorem wma_series_on_tf (tf : Int) (htf : 0 < tf) (p : Nat) (hp : 2 ≤ p) (nm input : String)
+    (fld : Candle K → Num K) (n : Nat) (hk : IsKey nm) (hin : AttrInput input)
+    (hattr : ∀ c : Candle K, c.attr input = some (.num (fld c)))
+    (init : List (Candle K)) (chunks : List (List (Candle K))) (hraw : RawTf (init ++ chunks.flatten)) :
+    ∃ snap, candlesOf (runIndicator (mkTop (.wma p input) nm n) { tf := some tf } init chunks) = .ok snap ∧
+      snap.length = (resample tf (init ++ chunks.flatten)).length ∧
+      ∀ j, j < (resample tf (init ++ chunks.flatten)).length →
+        (snap.getD j default).bare = ((resample tf (init ++ chunks.flatten)).getD j default).bare ∧
+        DirectOK p n (wmaAt (fieldAt fld (resample tf (init ++ chunks.flatten))) p) j
+          (readingByCandle (snap.getD j default) nm) :=
+  Numeric.wma_series_tf tf htf p hp nm input fld n hk hin hattr init chunks hraw
+
+/-- **WMA on timeframe + gap filling + Heikin-Ashi** -/
+theorem wma_series_on_fillHA (tf : Int) (htf : 0 < tf) (p : Nat) (hp : 2 ≤ p) (nm input : String)
+    (fld : Candle K → Num K) (n : Nat) (hk : IsKey nm) (hin : AttrInput input)
+    (hattr : ∀ c : Candle K, c.attr input = some (.num (fld c)))
+    (init : List (Candle K)) (chunks : List (List (Candle K)))
+    (hraw : RawTf (init ++ chunks.flatten) ∧ ∀ c ∈ init ++ chunks.flatten, c.tag = false) :
+    ∃ snap, candlesOf (runIndicator (mkTop (.wma p input) nm n) { tf := some tf, fill := true, ha := true }
+        init chunks) = .ok snap ∧
+      EveryCandle (WmaCandle p n nm fld) (haSpec (fillSpec tf (init ++ chunks.flatten))) snap :=
+  Numeric.wma_series_fillHA tf htf p hp nm input fld n hk hin hattr init chunks hraw
+
+/-- **VWMA is its textbook series on every manager** (volume-weighted over the manager's candles: a collapsed
+candle's volume is the bucket's total) -/
+theorem vwma_series_on_manager (M : MgrSpec K) (p : Nat) (hp : 2 ≤ p) (nm : String) (n : Nat) (hk : IsKey nm) :
+    HoldsOn M (mkTop (.vwma p) nm n) (VwmaCandle (K := K) p n nm) :=
+  Numeric.vwma_series_on_manager M p hp nm n hk
+
+/-- **VWMA on a collapsing timeframe** -/
+theorem vwma_series_on_tf (tf : Int) (htf : 0 < tf) (p : Nat) (hp : 2 ≤ p) (nm : String) (n : Nat) (hk : IsKey nm)
+    (init : List (Candle K)) (chunks : List (List (Candle K))) (hraw : RawTf (init ++ chunks.flatten)) :
+    ∃ snap, candlesOf (runIndicator (mkTop (.vwma p) nm n) { tf := some tf } init chunks) = .ok snap ∧
+      snap.length = (resample tf (init ++ chunks.flatten)).length ∧
+      ∀ j, j < (resample tf (init ++ chunks.flatten)).length →
+        (snap.getD j default).bare = ((resample tf (init ++ chunks.flatten)).getD j default).bare ∧
+        DirectOK p n (vwmaAt (fieldAt (·.c) (resample tf (init ++ chunks.flatten)))
+          (fieldAt (·.v) (resample tf (init ++ chunks.flatten))) p) j (readingByCandle (snap.getD j default) nm) :=
+  Numeric.vwma_series_tf tf htf p hp nm n hk init chunks hraw
+
+/-- **VWMA on timeframe + gap filling + Heikin-Ashi** -/
+theorem vwma_series_on_fillHA (tf : Int) (htf : 0 < tf) (p : Nat) (hp : 2 ≤ p) (nm : String) (n : Nat) (hk : IsKey nm)
+    (init : List (Candle K)) (chunks : List (List (Candle K)))
+    (hraw : RawTf (init ++ chunks.flatten) ∧ ∀ c ∈ init ++ chunks.flatten, c.tag = false) :
+    ∃ snap, candlesOf (runIndicator (mkTop (.vwma p) nm n) { tf := some tf, fill := true, ha := true }
+        init chunks) = .ok snap ∧
+      EveryCandle (VwmaCandle p n nm) (haSpec (fillSpec tf (init ++ chunks.flatten))) snap :=
+  Numeric.vwma_series_fillHA tf htf p hp nm n hk init chunks hraw
+
+/-- **the HMA run on every manager is `hmaDeco` of the manager's candles** -/
+theorem hma_runs_on_manager (M : MgrSpec K) (p : Nat) (hp : 2 ≤ p) (nm input : String) (fld : Candle K → Num K)
+    (n : Nat) (hn : HmaNames nm) (hin : AttrInput input)
+    (hattr : ∀ c : Candle K, c.attr input = some (.num (fld c))) :
+    RunsAs M (mkTop (.hma (p : Int) input : Kind K) nm n) (hmaDeco nm n p fld) :=
+  Numeric.hma_runs_on_manager M p hp nm input fld n hn hin hattr
+
+/-- **HMA (all five series) is its textbook series on every manager** -/
+theorem hma_series_on_manager (M : MgrSpec K) (p : Nat) (hp : 2 ≤ p) (nm input : String) (fld : Candle K → Num K)
+    (n : Nat) (hn : HmaNames nm) (hin : AttrInput input)
+    (hattr : ∀ c : Candle K, c.attr input = some (.num (fld c))) :
+    HoldsOn M (mkTop (.hma (p : Int) input : Kind K) nm n) (HmaCandle p n nm fld) :=
+  Numeric.hma_series_on_manager M p hp nm input fld n hn hin hattr
+
+/-- **HMA on a collapsing timeframe** -/
+theorem hma_series_on_tf (tf : Int) (htf : 0 < tf) (p : Nat) (hp : 2 ≤ p) (nm input : String)
+    (fld : Candle K → Num K) (n : Nat) (hn : HmaNames nm) (hin : AttrInput input)
+    (hattr : ∀ c : Candle K, c.attr input = some (.num (fld c)))
+    (init : List (Candle K)) (chunks : List (List (Candle K))) (hraw : RawTf (init ++ chunks.flatten)) :
+    ∃ snap, candlesOf (runIndicator (mkTop (.hma (p : Int) input : Kind K) nm n) { tf := some tf } init chunks)
+        = .ok snap ∧
+      snap = hmaDeco nm n p fld (resample tf (init ++ chunks.flatten)) ∧
+      snap.length = (resample tf (init ++ chunks.flatten)).length ∧
+      ∀ j, j < (resample tf (init ++ chunks.flatten)).length →
+        (snap.getD j default).bare = ((resample tf (init ++ chunks.flatten)).getD j default).bare ∧
+        HmaOK n p (fieldAt fld (resample tf (init ++ chunks.flatten))) j
+          (readingByCandle (snap.getD j default) nm) (readingByCandle (snap.getD j default) (nm ++ "_WMA"))
+          (readingByCandle (snap.getD j default) (nm ++ "_WMAh")) (readingByCandle (snap.getD j default) (nm ++ "_HMAr"))
+          (readingByCandle (snap.getD j default) (nm ++ "_HMAs")) :=
+  Numeric.hma_series_tf tf htf p hp nm input fld n hn hin hattr init chunks hraw
+
+/-- **HMA on timeframe + gap filling + Heikin-Ashi** -/
+theorem hma_series_on_fillHA (tf : Int) (htf : 0 < tf) (p : Nat) (hp : 2 ≤ p) (nm input : String)
+    (fld : Candle K → Num K) (n : Nat) (hn : HmaNames nm) (hin : AttrInput input)
+    (hattr : ∀ c : Candle K, c.attr input = some (.num (fld c)))
+    (init : List (Candle K)) (chunks : List (List (Candle K)))
+    (hraw : RawTf (init ++ chunks.flatten) ∧ ∀ c ∈ init ++ chunks.flatten, c.tag = false) :
+    ∃ snap, candlesOf (runIndicator (mkTop (.hma (p : Int) input : Kind K) nm n)
+        { tf := some tf, fill := true, ha := true } init chunks) = .ok snap ∧
+      snap = hmaDeco nm n p fld (haSpec (fillSpec tf (init ++ chunks.flatten))) ∧
+      EveryCandle (HmaCandle p n nm fld) (haSpec (fillSpec tf (init ++ chunks.flatten))) snap :=
+  Numeric.hma_series_fillHA tf htf p hp nm input fld n hn hin hattr init chunks hraw
+
+/-- every moving average on `{ha}`, `{tf, ha}`, `{tf, fill, ha}` (`HoldsOnHA.unfold` spells the three out) -/
+theorem sma_series_ha (p : Nat) (hp : 2 ≤ p) (nm input : String) (fld : Candle K → Num K) (n : Nat)
+    (hk : IsKey nm) (hin : AttrInput input) (hattr : ∀ c : Candle K, c.attr input = some (.num (fld c))) :
+    HoldsOnHA (mkTop (.sma p input) nm n) (SmaCandle p n nm fld) :=
+  Numeric.sma_series_ha p hp nm input fld n hk hin hattr
+
+theorem hma_series_ha (p : Nat) (hp : 2 ≤ p) (nm input : String) (fld : Candle K → Num K) (n : Nat)
+    (hn : HmaNames nm) (hin : AttrInput input) (hattr : ∀ c : Candle K, c.attr input = some (.num (fld c))) :
+    HoldsOnHA (mkTop (.hma (p : Int) input : Kind K) nm n) (HmaCandle p n nm fld) :=
+  Numeric.hma_series_ha p hp nm input fld n hn hin hattr
+
+/-- non-vacuity (ℚ, two-minute timeframe; `haStamped`: five one-minute candles, four buckets): SMA(2) returns four
+candles, the first without a reading, the last within `3·ε₄` of the mean of the last two COLLAPSED closes.  (`Int`
+runs by `decide +kernel`: end of HexProofs/Numeric/SeriesOnManagersC04.lean.) -/
+example : ∃ snap : List (Candle ℚ),
+    candlesOf (runIndicator (mkTop (.sma (2 : Nat) "close") "SMA_2" 4) { tf := some 120 }
+      (haStamped.take 2) [haStamped.drop 2]) = .ok snap ∧ snap.length = 4 ∧
+    readingByCandle (snap.getD 0 default) "SMA_2" = .none ∧
+    ∃ y, readingByCandle (snap.getD 3 default) "SMA_2" = .flt y ∧
+      |y - winMean (fieldAt (·.c) (resample 120 haStamped)) 2 3| ≤ ((3 : Nat) : ℚ) * eps ℚ 4 := by
+  obtain ⟨snap, h1, h2, h3⟩ := sma_series_on_tf (K := ℚ) 120 (by decide) 2 (by norm_num) "SMA_2" "close" (·.c) 4
+    (by decide) ⟨noDot_close, by decide⟩ (fun _ => rfl) (haStamped.take 2) [haStamped.drop 2] haStamped_ok.1
+  have e : haStamped.take 2 ++ [haStamped.drop 2].flatten = haStamped := by simp
+  rw [e] at h2 h3
+  rw [haStamped_resample_length] at h2 h3
+  exact ⟨snap, h1, h2, (h3 0 (by decide)).2.1 (by decide), (h3 3 (by decide)).2.2 (by decide)⟩
 
 end Hex.C04
